@@ -118,7 +118,7 @@ def project(text):
     h = [ord(c) for c in text[:106]]
     env = []
     if len(text) >= 106:
-        st, et = text[105], text[3]
+        st, et, ct = text[105], text[3], text[104]
         pieces = text.split(st)[:-1]             # whatever follows the last terminator is never delivered
         for p in pieces:
             p = p.lstrip(' \r\n')
@@ -126,7 +126,8 @@ def project(text):
                 continue
             el = p.split(et) if et != st else [p]
             if el[0] in ('ISA', 'GS', 'BHT'):
-                env.append({'id': el[0], 'els': [e if _SAFE.match(e) else '?' for e in el[1:60]], 'term': True})
+                # a value holding the component separator is read as a composite by the tokenizer: it cannot be an index key as written
+                env.append({'id': el[0], 'els': [e if (_SAFE.match(e) and (ct not in e or el[0] == 'ISA')) else '?' for e in el[1:60]], 'term': True})
             if len(env) > 400:
                 break
     return h, env
